@@ -24,6 +24,7 @@ def goFacts : GoFacts :=
     srcArgsCopied := true,
     frameInClosure := true,
     wrapperFramePerCall := true,
+    callBinGoArgsCopied := false,
     callBinGoArg := "getBinValue(getMapType, v, f)",
     callBinGoStmt := "go callFn(value(f), in)",
     getFuncClones := true,
